@@ -52,6 +52,8 @@ pub struct Monitor {
     reg_changed_since: BTreeMap<u64, bool>,
     pub last_fee_switch_step: Option<usize>,
     pub step_no: usize,
+    /// coarse, property-independent description of the last judged transaction (coverage accounting)
+    pub last_case: u64,
 }
 
 fn stage_of(s: St) -> u8 {
@@ -84,6 +86,7 @@ impl Monitor {
             reg_changed_since: BTreeMap::new(),
             last_fee_switch_step: None,
             step_no: 0,
+            last_case: 0,
         }
     }
 
@@ -122,7 +125,9 @@ impl Monitor {
                     if pm.from == names.market {
                         self.hit("pool_msg_seen");
                         if let Some(r) = &pm.rejected {
-                            if !r.starts_with("injected") {
+                            if r.contains("insufficient funds") {
+                                f.push(Finding::new("C10.pool_deposit_unfunded", kind, format!("{kind}: {r}")));
+                            } else {
                                 f.push(Finding::new("C10.malformed_pool_msg", kind, format!("{kind}: {r}")));
                             }
                         }
@@ -192,6 +197,25 @@ impl Monitor {
                     }
                     self.update_ghost(pre, a, &exp, post, names, &mut f);
                 }
+                // coarse case class: kind, path, outcome, verdict with reasons, class of the target record(s)
+                {
+                    let mut h = crate::prng::fnv1a(kind.as_bytes());
+                    if let Some(d) = a.act.dep() {
+                        h = crate::prng::fnv_mix(h, d.path().as_bytes());
+                    }
+                    h = crate::prng::fnv_mix(h, &[out.ok as u8, fired as u8, pre.fee_usdc as u8, a.via_hook as u8, (!a.attached.is_empty()) as u8]);
+                    match &exp.verdict {
+                        Verdict::Fail(rs) => {
+                            for r in rs {
+                                h = crate::prng::fnv_mix(h, &[1, *r as u8]);
+                            }
+                        }
+                        Verdict::Succeed => h = crate::prng::fnv_mix(h, &[2]),
+                        Verdict::Any => h = crate::prng::fnv_mix(h, &[3]),
+                    }
+                    h = crate::prng::fnv_mix(h, &target_class(pre, a).to_be_bytes());
+                    self.last_case = h;
+                }
                 // transition coverage
                 let sc = state_class(pre);
                 self.state_classes.insert(sc);
@@ -231,10 +255,17 @@ impl Monitor {
         let kind = a.act.kind();
         match &a.act {
             Act::CreateListing { id, .. } => {
-                self.ghost.ever_listing.insert(*id);
+                // a re-created id (a C09 matter) denotes a new object for the per-object monitors
+                if !self.ghost.ever_listing.insert(*id) {
+                    self.buys.remove(id);
+                    self.listing_payouts.remove(id);
+                    self.traces.remove(id);
+                }
             }
             Act::CreateBucket { id, .. } => {
-                self.ghost.ever_bucket.insert(*id);
+                if !self.ghost.ever_bucket.insert(*id) {
+                    self.bucket_payouts.remove(id);
+                }
             }
             Act::Buy { lid, bid } => {
                 let n = self.buys.entry(*lid).or_insert(0);
@@ -662,6 +693,9 @@ impl Monitor {
                 if *a == 0 || (d != "ujunox" && d != "uusdcx") {
                     bad.push(format!("pending fee {a}{d}"));
                 }
+            }
+            if !l.status_consistent {
+                bad.push(format!("status field {:?} contradicts recorded buyer {:?}", l.raw.status, l.claimant));
             }
             for b in bad {
                 f.push(Finding::new("C12.record_malformed", "listing", format!("listing {}: {}", l.id, b)));
@@ -1192,6 +1226,24 @@ fn compare_wallets(pre: &Obs, post: &Obs, eff: &Effect, a: &Action, names: &Name
 }
 
 pub fn compare_effect(pre: &Obs, post: &Obs, eff: &Effect, a: &Action, names: &Names, f: &mut Vec<Finding>) {
+    if let Act::Buy { lid, bid } = &a.act {
+        // the swap files the bucket under the seller: a bucket the seller already holds under the
+        // same id (possible only after an id was accepted twice) must not be destroyed by it
+        if let Some(l) = pre.listing_by_id(*lid) {
+            if l.key_owner != a.sender {
+                if let Some(old) = pre.bucket_at(&l.key_owner, *bid) {
+                    f.push(Finding::new(
+                        "C03.bucket_overwritten",
+                        "buy_listing",
+                        format!(
+                            "buy_listing by {}: the seller {} already held a bucket {} ({}) which the swap replaced",
+                            a.sender, l.key_owner, bid, old.funds.describe()
+                        ),
+                    ));
+                }
+            }
+        }
+    }
     compare_records(pre, post, eff, a, f);
     compare_wallets(pre, post, eff, a, names, f);
     compare_misc(pre, post, eff, a, names, f);
@@ -1218,4 +1270,59 @@ pub fn state_class(o: &Obs) -> u64 {
         h = crate::prng::fnv_mix(h, &p.to_be_bytes());
     }
     h
+}
+
+/// class of the record(s) a message is aimed at, from the pre-state
+fn target_class(pre: &Obs, a: &Action) -> u64 {
+    let lclass = |l: Option<&LRec>| -> u32 {
+        match l {
+            None => 0,
+            Some(l) => {
+                let expired = l.expiration.map_or(false, |e| pre.time_ns > e);
+                1 | ((stage_of(l.status) as u32) << 1)
+                    | ((expired as u32) << 3)
+                    | ((l.fee.is_some() as u32) << 4)
+                    | ((l.goods.fung.len().min(3) as u32) << 5)
+                    | ((l.goods.nfts.len().min(3) as u32) << 7)
+                    | ((l.wl.is_some() as u32) << 9)
+                    | (((l.key_owner == a.sender) as u32) << 10)
+            }
+        }
+    };
+    let bclass = |b: Option<&crate::obs::BRec>| -> u32 {
+        match b {
+            None => 0,
+            Some(b) => {
+                1 | ((b.fee.is_some() as u32) << 4)
+                    | ((b.funds.fung.len().min(3) as u32) << 5)
+                    | ((b.funds.nfts.len().min(3) as u32) << 7)
+                    | (((b.key_owner == a.sender) as u32) << 10)
+            }
+        }
+    };
+    let (x, y): (u32, u32) = match &a.act {
+        Act::CreateListing { id, .. } => (lclass(pre.listing_by_id(*id)), 0),
+        Act::AddToListing { id, .. } | Act::ChangeAsk { id, .. } | Act::Finalize { id, .. } | Act::DeleteListing { id } | Act::Withdraw { id } => {
+            (lclass(pre.listing_by_id(*id)), 0)
+        }
+        Act::CreateBucket { id, .. } | Act::AddToBucket { id, .. } | Act::RemoveBucket { id } => (0, bclass(pre.bucket_by_id(*id))),
+        Act::Buy { lid, bid } => {
+            let l = pre.listing_by_id(*lid);
+            let b = pre.bucket_by_id(*bid);
+            let mut extra = 0u32;
+            if let (Some(l), Some(b)) = (l, b) {
+                let ss: u64 = spec::side_royalties(&l.goods, &pre.registry).iter().map(|(_, e)| e.bps).sum();
+                let bs: u64 = spec::side_royalties(&b.funds, &pre.registry).iter().map(|(_, e)| e.bps).sum();
+                extra = ((ss > 0) as u32) << 12 | ((bs > 0) as u32) << 13 | ((ss.max(bs) >= 5000) as u32) << 14;
+            }
+            (lclass(l) | extra, bclass(b))
+        }
+        Act::Register { coll, .. } | Act::Update { coll, .. } | Act::Remove { coll } => {
+            let e = pre.registry.get(coll);
+            let cooled = e.map_or(false, |e| pre.height >= e.last_updated + 100);
+            ((e.is_some() as u32) | ((cooled as u32) << 1) | ((pre.admins.get(coll).cloned().flatten().as_deref() == Some(a.sender.as_str())) as u32) << 2, 0)
+        }
+        _ => (0, 0),
+    };
+    ((x as u64) << 32) | y as u64
 }
